@@ -95,6 +95,8 @@ def run(chk, repo, tier):
     C04b.run_p16(chk, repo)
     C04b.run_p17_p18(chk, repo)
     C04b.run_p19_p20(chk, repo)
+    from rules.C01b import run_theta_sentinels
+    run_theta_sentinels(chk, repo, 'P21')
 
     tm = repo.module(f'{NM}.records.theta_record')
     om = repo.module(f'{NM}.records.omega_record')
